@@ -170,6 +170,22 @@ def run(chk, replay=None):
             chk.violation("the long-genome probe aborted: " + san_kind(se), {"probe": "big", "stderr": se[-1500:]},
                           tags={"op": "random", "kind": "code-length-overflow"})
 
+    # degenerate symbol sets (zero total weights, category gaps): whatever symbol_set::is_valid /
+    # problem::is_valid accept must be usable by random construction (one process per case)
+    if probe_big:
+        for k in range(5):
+            rc, so, se = C.run_harness(exe, ["weights", str(k)], env=SAN, timeout=600)
+            ln = next((l for l in so.splitlines() if l.startswith("W ")), "W case-%d" % k)
+            name = ln.split()[1]
+            d = dict(kv.split("=", 1) for kv in ln.split()[2:] if "=" in kv)
+            chk.count("degenerate-set:" + ("accepted" if d.get("accepted") == "1" else "rejected"))
+            if rc != 0 or (d.get("accepted") == "1" and d.get("wf") != "1"):
+                chk.violation("symbol set `%s` is accepted by symbol_set::is_valid()/problem::is_valid() but "
+                              "i_mep(problem) on it %s" % (name, ("aborts: " + san_kind(se)) if rc != 0 else
+                                                          "builds an ill-formed individual (%s)" % d.get("why")),
+                              {"probe": "big", "case": name, "line": ln, "stderr": se[-1500:]},
+                              tags={"op": "random", "kind": "degenerate-symbol-set", "case": name})
+
     # ---- the Lean side ------------------------------------------------------
     suspects = []          # relation-only disagreements (searched further below)
     nlean_fail = 0
